@@ -7,7 +7,8 @@ import re
 import re._parser as sre_parse
 import string
 
-from ..astutil import call_name, calls_in, dotted, returns_of, unparse, walk_local
+from ..astutil import call_name, calls_in, dotted, func_defaults, name_stores, returns_of, unparse, walk_local
+from ..index import FuncInfo
 from ..report import Registry, sub
 from ._helpers_rules_a import self_attr
 
@@ -52,36 +53,179 @@ def _self_fields_in(node):
     return {self_attr(n) for n in ast.walk(node) if self_attr(n) is not None}
 
 
-def _writer_codecs(ctx, f):
-    """component -> list of (codec name, safe string or None, call node) found in render_as_string."""
+CODECS = ("quote", "quote_plus")
+TRANSPARENT = {"str"}  # builtins that return a str argument unchanged
+MAX_HELPER_DEPTH = 3
+
+
+class _Closure:
+    """An argument expression together with the bindings of the scope it was written in."""
+
+    def __init__(self, node, env, origin):
+        self.node, self.env, self.origin = node, env, origin
+
+
+def _is_urllib_codec(mod, nm):
+    if nm is None:
+        return None
+    last = nm.rsplit(".", 1)[-1]
+    if last not in CODECS or last in mod.functions:
+        return None
+    head = nm.split(".", 1)[0]
+    imp = mod.imports.get(head)
+    if imp is None:
+        return None
+    if imp[0] == "symbol":
+        return last if (imp[1], imp[2]) == ("urllib.parse", last) and nm == last else None
+    return last if imp[1] in ("urllib", "urllib.parse") else None
+
+
+def _fields_of(node, env):
+    """URL fields (self.<x>) an expression depends on, through the parameter bindings of followed helpers."""
+    out = set(_self_fields_in(node))
+    for n in ast.walk(node):
+        if isinstance(n, ast.Name) and n.id in env:
+            out |= _fields_of(env[n.id].node, env[n.id].env)
+    return out
+
+
+def _str_const(ctx, node, env, mod, what):
+    """(value, where it comes from) of an expression that must be a string constant."""
+    if isinstance(node, ast.Constant) and isinstance(node.value, str):
+        return node.value, None
+    if isinstance(node, ast.Name) and node.id in env:
+        cl = env[node.id]
+        v, origin = _str_const(ctx, cl.node, cl.env, mod, what)
+        return v, origin or cl.origin
+    if isinstance(node, ast.Name) and node.id in mod.assigns and len(mod.assigns[node.id]) == 1:
+        v = ctx.ev.module_value(mod, node.id)
+        if isinstance(v, str):
+            return v, f"module constant {node.id}"
+    ctx.error(f"{what}: `{unparse(node)}` is not a string constant that can be followed")
+
+
+def _bind_call(ctx, target, call, env, bound_self):
+    """parameter name -> _Closure for a call of `target` (positional, keyword, then defaults)."""
+    a = target.node.args
+    ctx.require(a.vararg is None and a.kwarg is None and not any(isinstance(x, ast.Starred) for x in call.args)
+                and all(k.arg is not None for k in call.keywords),
+                f"call `{unparse(call)}` of {target.qualname} uses */** arguments; cannot bind")
+    pos = [x.arg for x in a.posonlyargs + a.args]
+    if bound_self and pos:
+        pos = pos[1:]
     out = {}
-    for c in calls_in(f.node, into_nested=True):
+    ctx.require(len(call.args) <= len(pos), f"too many positional arguments in `{unparse(call)}`")
+    for p, arg in zip(pos, call.args):
+        out[p] = _Closure(arg, env, f"argument of `{unparse(call)}`")
+    for k in call.keywords:
+        out[k.arg] = _Closure(k.value, env, f"argument of `{unparse(call)}`")
+    for p, d in func_defaults(target.node).items():
+        if p not in out:
+            out[p] = _Closure(d, {}, f"default of parameter `{p}` of {target.qualname}()")
+    # single-assignment locals of the helper are bindings, too
+    stores = {}
+    for nm, val, _st in name_stores(target.node):
+        stores.setdefault(nm, []).append(val)
+    for nm, vals in stores.items():
+        if nm not in out and len(vals) == 1 and vals[0] is not None:
+            out[nm] = _Closure(vals[0], out, f"local `{nm}` of {target.qualname}()")
+    return out
+
+
+def _resolve_helper(ctx, call, fn):
+    """FuncInfo of a callee defined next to the writer (same module / a method of the same class), else None."""
+    nm = call_name(call)
+    if nm is None:
+        return None, False
+    parts = nm.split(".")
+    if fn.cls is not None and len(parts) == 2 and parts[0] in ("self", "cls", fn.cls.name):
+        m = ctx.index.resolve_method(fn.cls, parts[1])
+        if m is None:
+            return None, False
+        static = any(d.rsplit(".", 1)[-1] == "staticmethod" for d in m.decorators)
+        return m, not static
+    r = ctx.index.resolve(fn.module, nm)
+    if isinstance(r, FuncInfo) and r.module is fn.module:
+        return r, False
+    return None, False
+
+
+def _returns_unmodified(ctx, target, inner_calls):
+    """every `return` of a followed helper hands back the encoder's result as is."""
+    ids = {id(c) for c in inner_calls}
+    locals_ok = {nm for nm, val, _ in name_stores(target.node) if val is not None and id(val) in ids}
+
+    def ok(v):
+        if v is None:
+            return False
+        if id(v) in ids or (isinstance(v, ast.Name) and v.id in locals_ok):
+            return True
+        if isinstance(v, ast.IfExp):
+            return ok(v.body) and ok(v.orelse)
+        return False
+    rets = returns_of(target.node)
+    return bool(rets) and all(ok(r_.value) for r_ in rets)
+
+
+def _writer_codecs(ctx, f):
+    """component -> list of (codec name, safe string, call node in the writer, how it was reached) for every
+    urllib quote()/quote_plus() the writer applies, directly or through helper functions defined next to it
+    (arguments, keyword arguments and parameter defaults are bound).  `out['?unfollowed']` maps components to
+    calls that receive the component but could not be followed."""
+    out = {"?unfollowed": {}}
+
+    def visit(c, env, fn, depth, top, via):
         nm = call_name(c)
-        if nm not in ("quote", "quote_plus", "urllib.parse.quote", "urllib.parse.quote_plus"):
-            continue
-        nm = nm.rsplit(".", 1)[-1]
-        safe = None
-        for k in c.keywords:
-            if k.arg == "safe":
-                ctx.require(isinstance(k.value, ast.Constant) and isinstance(k.value.value, str),
-                            f"safe= of `{unparse(c)}` is not a string constant")
-                safe = k.value.value
-        if len(c.args) > 1:
-            ctx.require(isinstance(c.args[1], ast.Constant), f"safe argument of `{unparse(c)}` not constant")
-            safe = c.args[1].value
-        if safe is None:
-            safe = "/" if nm == "quote" else ""
-        fields = _self_fields_in(c.args[0])
-        if fields:
-            for fld in fields:
-                out.setdefault(fld, []).append((nm, safe, c))
-        else:
-            out.setdefault("query", []).append((nm, safe, c))  # loop variables over self.query
+        codec = _is_urllib_codec(fn.module, nm)
+        if codec:
+            ctx.require(c.args, f"`{unparse(c)}`: no text argument")
+            safe, origin = None, None
+            for k in c.keywords:
+                if k.arg == "safe":
+                    safe, origin = _str_const(ctx, k.value, env, fn.module, f"safe= of `{unparse(c)}`")
+            if len(c.args) > 1:
+                safe, origin = _str_const(ctx, c.args[1], env, fn.module, f"safe argument of `{unparse(c)}`")
+            if safe is None:
+                safe, origin = ("/" if codec == "quote" else ""), f"urllib default of {codec}()"
+            how = ""
+            if via:
+                how = f" -> `{unparse(c)}` in {via[-1]}() with safe={safe!r}" + (f" ({origin})" if origin else "")
+            fields = _fields_of(c.args[0], env)
+            for fld in (fields or {"query"}):  # no field: loop variables over self.query
+                out.setdefault(fld, []).append((codec, safe, top or c, how))
+            return [c]
+        target, bound_self = _resolve_helper(ctx, c, fn)
+        if target is None or depth >= MAX_HELPER_DEPTH:
+            if (nm or "").rsplit(".", 1)[-1] not in TRANSPARENT:
+                for a in list(c.args) + [k.value for k in c.keywords]:
+                    for fld in _fields_of(a, env):
+                        out["?unfollowed"].setdefault(fld, []).append(unparse(top or c))
+            return []
+        ctx.functions_analysed.add(target.key)
+        env2 = _bind_call(ctx, target, c, env, bound_self)
+        found = []
+        for c2 in calls_in(target.node):
+            if visit(c2, env2, target, depth + 1, top or c, via + [target.qualname]):
+                found.append(c2)
+        if found:
+            ctx.require(_returns_unmodified(ctx, target, found),
+                        f"{target.key}: the helper does not return the result of its encoder call unchanged; "
+                        f"post-processing of percent-encoded text is not understood")
+            return [c]
+        return []
+
+    for c in calls_in(f.node, into_nested=True):
+        visit(c, {}, f, 0, None, [])
     return out
 
 
 def _reader_codecs(ctx, f):
     """component -> set of decoder names applied in _parse_url."""
+    return {comp: {nm for nm, _ in v} for comp, v in _reader_codec_calls(ctx, f).items()}
+
+
+def _reader_codec_calls(ctx, f):
+    """component -> list of (decoder name, call node) applied in _parse_url."""
     out = {}
     pm = f.module.parents()
     for c in calls_in(f.node):
@@ -107,7 +251,7 @@ def _reader_codecs(ctx, f):
                         f"_parse_url: cannot enumerate the components decoded by `{unparse(c)}`")
             comps = [e.value for e in cur.iter.elts]
         for comp in comps:
-            out.setdefault(comp, set()).add(nm)
+            out.setdefault(comp, []).append((nm, c))
     return out
 
 
@@ -122,8 +266,11 @@ def r1(ctx):
     fields = _url_fields(ctx)
     for comp in fields:
         key = f"{URLPY}::URL:{comp}"
-        enc = {nm for nm, _, _ in wc.get(comp, [])}
+        enc = {nm for nm, _, _, _ in wc.get(comp, [])}
         dec = {d for d in rc.get(comp, set()) if d != "int"}
+        if not enc and comp in wc["?unfollowed"]:
+            ctx.error(f"render_as_string passes `{comp}` to {wc['?unfollowed'][comp]}, which is neither a urllib codec nor "
+                      f"a helper defined in {URLPY}; cannot tell how `{comp}` is written")
         if not enc and not dec:
             ctx.ok(key, "written raw, read raw")
             continue
@@ -330,27 +477,26 @@ def r2(ctx):
         dangerous = set(gc[1]) | _follow(tree, gd[comp]) | {"%"}
         calls = wc.get(comp, [])
         if not calls:
+            if comp in wc["?unfollowed"]:
+                ctx.error(f"render_as_string passes `{comp}` to {wc['?unfollowed'][comp]}, which cannot be followed")
             ctx.violation(key, f"`{comp}` is written without percent-encoding although {sorted(dangerous)} delimit it", w.loc)
             continue
         problems = []
-        for nm, safe, c in calls:
+        for nm, safe, c, how in calls:
             leak = dangerous & (set(safe) | ALWAYS_SAFE)
             if leak:
-                problems.append(f"`{unparse(c)}` leaves {sorted(leak)} unescaped, but the reader's group for `{comp}` "
+                problems.append(f"`{unparse(c)}`{how} leaves {sorted(leak)} unescaped, but the reader's group for `{comp}` "
                                 f"stops at / excludes {sorted(dangerous - {'%'})}")
         ctx.check(not problems, key, "; ".join(problems),
-                  f"dangerous {sorted(dangerous)} all escaped (safe={[s for _, s, _ in calls]})", w.loc)
+                  f"dangerous {sorted(dangerous)} all escaped (safe={[s for _, s, _, _ in calls]})", w.loc)
     key = f"{URLPY}::URL:query:delimiters"
     calls = wc.get("query", [])
     ctx.require(calls, "render_as_string: query keys/values are not encoded by a recognisable call")
     problems = []
-    for nm, safe, c in calls:
-        unescaped = set(safe) | ALWAYS_SAFE | ({"+"} if False else set())
-        leak = QSL_SPECIAL & unescaped
-        if nm == "quote":
-            leak |= {"+"} & (set(safe) | set())  # plain quote keeps '+' only if listed; space becomes %20 (fine)
+    for nm, safe, c, how in calls:
+        leak = QSL_SPECIAL & (set(safe) | ALWAYS_SAFE)
         if leak:
-            problems.append(f"`{unparse(c)}` leaves {sorted(leak)} unescaped inside the query string")
+            problems.append(f"`{unparse(c)}`{how} leaves {sorted(leak)} unescaped inside the query string")
     ctx.check(not problems and len(calls) >= 2, key, "; ".join(problems) or "query key or value is not encoded",
               "keys and values escape & = + % #", w.loc)
 
@@ -485,6 +631,374 @@ def r4(ctx):
     rport = "int" in rc.get("port", set()) and _preceding_literal(tree, gd.get("port", -1)) == ":" if "port" in gd else False
     ctx.check(wport and rport, f"{URLPY}::URL:port",
               "port is not written as ':' + str(port) and read back with int() after ':'", "':' + str(port) <-> int()", w.loc)
+
+
+# ------------------------------------------------------------------------------------------ R5
+# characters a syntactically valid value of a component that is written WITHOUT encoding can contain
+# (property statement: "syntactically valid host and port"; the scheme class is the reader's own `[\w\+]+`)
+RAW_VALID = {
+    "name": set(string.ascii_letters + string.digits + "_+"),
+    "ipv4host": set(string.ascii_letters + string.digits + ".-_"),
+    "ipv6host": set(string.ascii_letters + string.digits + ":.%"),
+    "port": set(string.digits),
+}
+GROUP_FIELD = {"name": "drivername", "ipv4host": "host", "ipv6host": "host"}
+ANY_ASCII = {chr(i) for i in range(128)}
+LOG_CALLEES = {"warn", "warn_deprecated", "warn_limited", "debug", "info", "warning", "error", "exception", "log"}
+STRING_IDENTITY = {"str"}
+
+
+def _target_names(t):
+    if isinstance(t, ast.Name):
+        return [t.id]
+    if isinstance(t, (ast.Tuple, ast.List)):
+        return [x for e in t.elts for x in _target_names(e)]
+    if isinstance(t, ast.Starred):
+        return _target_names(t.value)
+    return []
+
+
+def _bindings(fn_node):
+    """(name -> [(source expression, line)] for real name bindings, container name -> [stored values])."""
+    binds, stores = {}, {}
+
+    def add(t, src, line):
+        for nm in _target_names(t):
+            binds.setdefault(nm, []).append((src, line))
+        if isinstance(t, ast.Subscript) and isinstance(t.value, ast.Name):
+            stores.setdefault(t.value.id, []).append(src)
+    for n in walk_local(fn_node, into_nested=True):
+        if isinstance(n, ast.Assign):
+            for t in n.targets:
+                add(t, n.value, n.lineno)
+        elif isinstance(n, (ast.AnnAssign, ast.AugAssign)) and n.value is not None:
+            add(n.target, n.value, n.lineno)
+        elif isinstance(n, ast.NamedExpr):
+            add(n.target, n.value, n.lineno)
+        elif isinstance(n, (ast.For, ast.AsyncFor)):
+            add(n.target, n.iter, n.lineno)
+        elif isinstance(n, ast.comprehension):
+            add(n.target, n.iter, n.iter.lineno)
+        elif isinstance(n, (ast.With, ast.AsyncWith)):
+            for it in n.items:
+                if it.optional_vars is not None:
+                    add(it.optional_vars, it.context_expr, n.lineno)
+        elif isinstance(n, ast.Call) and isinstance(n.func, ast.Attribute) and n.func.attr in ("append", "add", "extend", "update") \
+                and n.args:
+            base = n.func.value
+            while isinstance(base, ast.Call) and base.args:  # cast("List[str]", query[key]).append(value)
+                base = base.args[-1]
+            while isinstance(base, ast.Subscript):
+                base = base.value
+            if isinstance(base, ast.Name):
+                stores.setdefault(base.id, []).append(n.args[0])
+    return binds, stores
+
+
+def _names(node):
+    return {n.id for n in ast.walk(node) if isinstance(n, ast.Name)}
+
+
+def _tainted(seeds, binds, stores):
+    t = set(seeds)
+    changed = True
+    while changed:
+        changed = False
+        for src_map in (binds, stores):
+            for nm, srcs in src_map.items():
+                if nm in t:
+                    continue
+                for src in srcs:
+                    e = src[0] if isinstance(src, tuple) else src
+                    if _names(e) & t:
+                        t.add(nm)
+                        changed = True
+                        break
+    return t
+
+
+def _origin(expr, binds, groups, line, seen=None):
+    """regex groups whose text an expression carries; empty set = the whole URL text.
+    Direct evidence (a constant group name used as subscript / pop() / get() / group() argument, or a loop variable
+    over constant group names) wins; otherwise names are followed through bindings made before `line`."""
+    seen = set() if seen is None else seen
+    direct = set()
+    for n in ast.walk(expr):
+        keys = []
+        if isinstance(n, ast.Subscript):
+            keys = [n.slice]
+        elif isinstance(n, ast.Call) and isinstance(n.func, ast.Attribute) and n.func.attr in ("pop", "get", "group") and n.args:
+            keys = [n.args[0]]
+        for k in keys:
+            if isinstance(k, ast.Constant) and k.value in groups:
+                direct.add(k.value)
+            elif isinstance(k, ast.Name):
+                for src, _l in binds.get(k.id, []):
+                    if isinstance(src, (ast.Tuple, ast.List)):
+                        direct |= {e.value for e in src.elts if isinstance(e, ast.Constant) and e.value in groups}
+    if direct:
+        return direct
+    out = set()
+    for nm in _names(expr):
+        if nm in seen:
+            continue
+        for src, l in binds.get(nm, []):
+            if l < line:
+                out |= _origin(src, binds, groups, l, seen | {nm})
+    return out
+
+
+def _affected(call, method, spec, oracle):
+    """('chars', set) | ('substr', text) | ('unknown', None): what the normaliser can remove or change."""
+    kind = spec["chars"]
+    a0 = call.args[0] if call.args else None
+    if kind == "whitespace-or-arg0":
+        if a0 is None or (isinstance(a0, ast.Constant) and a0.value is None):
+            return "chars", set(oracle["ascii_whitespace"])
+        if isinstance(a0, ast.Constant) and isinstance(a0.value, str):
+            return "chars", set(a0.value)
+        return "unknown", None
+    if kind == "arg0-substring":
+        if isinstance(a0, ast.Constant) and isinstance(a0.value, str):
+            if method == "replace" and len(call.args) > 1 and isinstance(call.args[1], ast.Constant) \
+                    and call.args[1].value == a0.value:
+                return "chars", set()
+            return "substr", a0.value
+        return "unknown", None
+    if kind in ("ascii_uppercase", "ascii_lowercase", "ascii_letters"):
+        return "chars", set(getattr(string, kind))
+    if kind == "unknown":
+        return "unknown", None
+    return "chars", set(kind)
+
+
+def _hit(aff, possible):
+    kind, v = aff
+    if kind == "chars":
+        return v & possible
+    if kind == "substr":
+        return set(v) if v and set(v) <= possible else set()
+    return set()
+
+
+def _tail_fields(ctx, w):
+    """URL fields whose text can be the very end of the rendered string (every later append is conditional);
+    None if the writer's shape is not a sequence of appends to the returned accumulator."""
+    rets = returns_of(w.node)
+    if len(rets) != 1 or not isinstance(rets[0].value, ast.Name):
+        return None
+    acc = rets[0].value.id
+    local = {}
+    for nm, val, _st in name_stores(w.node):
+        local.setdefault(nm, []).append(val)
+
+    def fields(node, depth=0):
+        out = set(_self_fields_in(node))
+        if not out and depth < 3:
+            for nm in _names(node):
+                for v in local.get(nm, []):
+                    if v is not None and nm != acc:
+                        out |= fields(v, depth + 1)
+        return out
+
+    unknown = []
+
+    def stmt(st):
+        if isinstance(st, ast.AugAssign) and isinstance(st.target, ast.Name) and st.target.id == acc and isinstance(st.op, ast.Add):
+            last = _parts(st.value)[-1]
+            if last[0] == "const" and not last[1]:
+                return set(), True  # appends nothing
+            return {last}, False
+        if isinstance(st, ast.Assign) and any(isinstance(t, ast.Name) and t.id == acc for t in st.targets):
+            last = _parts(st.value)[-1]
+            return {last}, False
+        if isinstance(st, ast.If):
+            tb, eb = block(st.body)
+            te, ee = block(st.orelse)
+            return tb | te, eb or ee
+        if isinstance(st, (ast.For, ast.While, ast.With, ast.Try)) and acc in {n_ for n_, _v, _s in name_stores(st)}:
+            unknown.append(st)
+        return set(), True
+
+    def block(body):
+        out = set()
+        for st in reversed(body):
+            t, empty = stmt(st)
+            out |= t
+            if not empty:
+                return out, False
+        return out, True
+
+    tails, _ = block(w.node.body)
+    if unknown:
+        return None
+    out = set()
+    for part in tails:
+        if part[0] == "expr":
+            f = fields(part[2])
+            if not f:
+                return None
+            out |= f
+    return out
+
+
+@R.rule("C20-R5", floor=10, template="T-FLOW",
+        desc="the URL text reaches the regex, and each group value reaches URL.create, without a str-normalising call "
+             "(strip/lower/replace/...) that touches characters the writer emits literally: the reader applies no "
+             "transformation the writer does not invert")
+def r5(ctx):
+    from ..oracles import load
+    oracle = load("python_str_normalisers.json")
+    methods = oracle["methods"]
+    w = ctx.func(f"{URLPY}::URL.render_as_string")
+    rx = ctx.func(f"{URLPY}::_parse_url")
+    start = ctx.func(f"{URLPY}::make_url")
+    pat, flags = _regex(ctx, rx)
+    groups = set(sre_parse.parse(pat, flags).state.groupdict)
+    wc = _writer_codecs(ctx, w)
+    dec_calls = _reader_codec_calls(ctx, rx)
+
+    # what the writer can emit literally, per regex group
+    literal = {}
+    for g in groups:
+        fld = GROUP_FIELD.get(g, g)
+        calls = wc.get(fld, [])
+        if calls:
+            chars = set(ALWAYS_SAFE)
+            for _nm, safe, _c, _how in calls:
+                chars |= set(safe)
+            literal[g] = (chars, "written with safe=" + "/".join(sorted({repr(sf) for _n, sf, _c, _h in calls})))
+        else:
+            ctx.require(g in RAW_VALID, f"group `{g}` is written raw but no valid-character class is known for it")
+            literal[g] = (RAW_VALID[g], "written raw")
+    tail = _tail_fields(ctx, w)
+    if tail is None:
+        ctx.note("render_as_string: accumulator shape not understood; every component is assumed able to end the URL")
+        end_groups = set(groups)
+    else:
+        end_groups = {g for g in groups if GROUP_FIELD.get(g, g) in tail}
+    ctx.require(end_groups, "render_as_string: no component can end the rendered URL?")
+    ctx.note(f"components that can end the rendered URL: {sorted(end_groups)}")
+    start_groups = {"name"} if "name" in groups else set(groups)
+
+    # the reader chain: make_url -> ... -> the function holding the regex
+    chain, seen, work = [], set(), [(start, {start.params[0]})]
+    while work:
+        fn, seeds = work.pop()
+        if fn.key in seen:
+            continue
+        seen.add(fn.key)
+        ctx.functions_analysed.add(fn.key)
+        binds, stores = _bindings(fn.node)
+        tainted = _tainted(seeds, binds, stores)
+        chain.append((fn, binds, tainted))
+        for c in calls_in(fn.node):
+            target, _bs = _resolve_helper(ctx, c, fn)
+            if target is None or target.cls is not None or target.key in seen:
+                continue
+            a = target.node.args
+            pos = [x.arg for x in a.posonlyargs + a.args]
+            hit = set()
+            for p_, arg in list(zip(pos, c.args)) + [(k.arg, k.value) for k in c.keywords if k.arg]:
+                if _names(arg) & tainted:
+                    hit.add(p_)
+                    ctx.require(_passes_text(arg, methods),
+                                f"{fn.key}: the URL text is handed to {target.qualname}() as `{unparse(arg)}`; "
+                                f"that transformation is not understood")
+            if hit:
+                work.append((target, hit))
+    ctx.require(rx.key in seen, f"make_url() no longer hands the URL text to {rx.qualname}()")
+
+    per_fn = {fn.key: [] for fn, _b, _t in chain}
+    per_group = {g: [] for g in groups}
+    for fn, binds, tainted in chain:
+        pm = fn.module.parents()
+        for c in calls_in(fn.node, into_nested=True):
+            nm = call_name(c) or ""
+            if nm in oracle["regex_rewriters"] and any(_names(a) & tainted for a in c.args[2:3]):
+                ctx.error(f"{fn.key}: `{unparse(c)}` rewrites the URL text with a regular expression; effect not understood")
+            if not (isinstance(c.func, ast.Attribute) and c.func.attr in methods and _names(c.func.value) & tainted):
+                continue
+            if isinstance(c.func.value, ast.Constant):
+                continue
+            # not part of the parse: diagnostics
+            skip = False
+            cur = pm.get(c)
+            while cur is not None and cur is not fn.node:
+                if isinstance(cur, (ast.Raise, ast.Assert)):
+                    skip = True
+                if isinstance(cur, ast.Call) and (call_name(cur) or "").rsplit(".", 1)[-1] in LOG_CALLEES:
+                    skip = True
+                cur = pm.get(cur)
+            if skip:
+                continue
+            method = c.func.attr
+            spec = methods[method]
+            aff = _affected(c, method, spec, oracle)
+            ctx.require(aff[0] != "unknown",
+                        f"{fn.key}: `{unparse(c)}` transforms text of the URL; the effect of str.{method}() here is not understood")
+            org = _origin(c.func.value, binds, groups, c.lineno) if fn is rx else set()
+            if not org:
+                where = spec["where"]
+                cand = set()
+                if where in ("end", "both-ends"):
+                    cand |= end_groups
+                if where in ("start", "both-ends"):
+                    cand |= start_groups
+                if where == "anywhere":
+                    cand = set(groups)
+                for g in sorted(cand):
+                    h = _hit(aff, literal[g][0])
+                    if h:
+                        pos_txt = {"end": "at the end", "start": "at the start", "both-ends": "at both ends",
+                                   "anywhere": "anywhere"}[where]
+                        can = ""
+                        if where != "anywhere":
+                            can = ", and that component can be the " + ("first" if g in start_groups and where == "start" else "last") \
+                                  + " thing in the rendered URL"
+                        per_fn[fn.key].append(
+                            f"`{unparse(c)}` in {fn.qualname}() normalises the whole URL text before it is matched: "
+                            f"str.{method}() removes/changes {sorted(h)} {pos_txt}, but render_as_string emits "
+                            f"{sorted(h)} literally in `{GROUP_FIELD.get(g, g)}` ({literal[g][1]}){can}: such a value "
+                            f"is silently altered by make_url(render_as_string())")
+                        break
+            else:
+                for g in sorted(org):
+                    decoded = any(d != "int" and (dc.lineno < c.lineno or any(x is dc for x in ast.walk(c.func.value)))
+                                  for d, dc in dec_calls.get(g, []))
+                    possible = ANY_ASCII if decoded else literal[g][0]
+                    h = _hit(aff, possible)
+                    if h:
+                        per_group[g].append(
+                            f"`{unparse(c)}` in {fn.qualname}() normalises the {'decoded ' if decoded else ''}text of group "
+                            f"`{g}`: str.{method}() removes/changes {sorted(h)[:8]}, which a `{GROUP_FIELD.get(g, g)}` value "
+                            f"can contain ({'any character after decoding' if decoded else literal[g][1]}); the writer does "
+                            f"not invert this")
+    for fn, _b, _t in chain:
+        ctx.check(not per_fn[fn.key], f"{fn.key}:url-text", "; ".join(per_fn[fn.key]),
+                  "URL text passed on without normalisation of writer-literal characters", fn.loc)
+    # the regex is applied to the text itself
+    m_calls = [c for c in calls_in(rx.node) if isinstance(c.func, ast.Attribute) and c.func.attr in ("match", "fullmatch", "search")]
+    ctx.require(len(m_calls) == 1, f"{rx.key}: expected exactly one regex match call")
+    marg = m_calls[0].args[-1] if m_calls[0].args else None
+    ctx.require(marg is not None and _passes_text(marg, methods), f"{rx.key}: `{unparse(m_calls[0])}` does not match the URL text itself")
+    for g in sorted(groups):
+        ctx.check(not per_group[g], f"{rx.key}:group:{g}:normalisation", "; ".join(per_group[g]),
+                  f"`{g}` reaches URL.create only through its decoder", rx.loc)
+
+
+def _passes_text(node, methods):
+    """the expression is the text itself, possibly under str() and str-normalisers (which are judged separately)."""
+    while True:
+        if isinstance(node, ast.Name):
+            return True
+        if isinstance(node, ast.Call) and isinstance(node.func, ast.Name) and node.func.id in STRING_IDENTITY and len(node.args) == 1:
+            node = node.args[0]
+            continue
+        if isinstance(node, ast.Call) and isinstance(node.func, ast.Attribute) and node.func.attr in methods:
+            node = node.func.value
+            continue
+        return False
 
 
 # ------------------------------------------------------------------------------------------ self test
